@@ -197,13 +197,13 @@ func (c *Ctx) entryGuarded(g *types.Func, inSCC map[*types.Func]bool) bool {
 
 // exceptions confirmed by reading, one line of reason each.
 var nilGuardExceptions = map[string]string{
-	"generateFlattenedUnmarshal variant.Field.Message":  "reached only for info.Flatten; validateOneofFlatten refuses flatten=true with non-message variants (R12a keeps the validator on every run)",
-	"generateMockMapFieldAssignment field.Message":        "called only under `case field.Desc.IsMap()`: map fields always carry their entry message",
+	"generateFlattenedUnmarshal variant.Field.Message":   "reached only for info.Flatten; validateOneofFlatten refuses flatten=true with non-message variants (R12a keeps the validator on every run)",
+	"generateMockMapFieldAssignment field.Message":       "called only under `case field.Desc.IsMap()`: map fields always carry their entry message",
 	"buildFlattenedVariantSchemas variant.Field.Message": "guarded by variant.IsMessage (struct invariant: IsMessage = field.Message != nil)",
 }
 
 var panicAccepted = map[string]string{
-	"main.readRequest":   "stdin unreadable or not a CodeGeneratorRequest: outside 'well-formed request'",
+	"main.readRequest":          "stdin unreadable or not a CodeGeneratorRequest: outside 'well-formed request'",
 	"main.writeResponse":        "marshalling the response / writing stdout failed: I/O failure, not a function of the request",
 	"main.writeResponseMessage": "marshalling the response / writing stdout failed: I/O failure, not a function of the request",
 }
@@ -444,7 +444,7 @@ func isRepoGenPkg(f *types.Func) bool {
 }
 
 var indexExceptions = map[string]string{
-	"tscommon.RootUnwrapTSType msg.Fields[0]":                                "callers test annotations.IsRootUnwrap(msg) first (len(Fields) == 1)",
+	"tscommon.RootUnwrapTSType msg.Fields[0]":                                     "callers test annotations.IsRootUnwrap(msg) first (len(Fields) == 1)",
 	"httpgen.(*Generator).generateMockMapFieldAssignment field.Message.Fields[0]": "called only for map fields: a map entry message has exactly two fields",
 	"httpgen.(*Generator).generateMockMapFieldAssignment field.Message.Fields[1]": "called only for map fields: a map entry message has exactly two fields",
 }
